@@ -115,6 +115,8 @@ def program_output(r, drop_break_blocks=True):
             text.append(e)
         elif e.startswith("I:"):
             text.append(e)
+        elif e == "C":
+            text.append("C")
         j += 1
     return text
 
@@ -131,6 +133,8 @@ def flatten(items, keep_breaks=False):
             s += "\x02"
         elif it.startswith("I:"):
             s += "\x03" + it + "\x03"
+        elif it == "C":
+            s += "\x0c"
         else:
             s += "\x04" + it + "\x04"
     s = s.replace("READY.\n", "")
@@ -144,7 +148,7 @@ def flatten(items, keep_breaks=False):
 
 def col_of(t):
     # an INPUT prompt resets the column
-    t = t.split("\x03")[-1]
+    t = t.split("\x03")[-1].split("\x0c")[-1]     # INPUT and CLS put the cursor in column 0
     return len(t) - (t.rfind("\n") + 1)
 
 
